@@ -19,6 +19,13 @@ func importLogs(w http.ResponseWriter, r *http.Request) {
 	stream := make(chan ledger.Log)
 	errChan := make(chan error, 1)
 	go func() {
+		// This goroutine is not covered by the recover middleware of the router:
+		// a panic while importing a (client provided) log must not take the server down.
+		defer func() {
+			if rvr := recover(); rvr != nil {
+				errChan <- fmt.Errorf("importing logs: panic: %v", rvr)
+			}
+		}()
 		err := common.LedgerFromContext(r.Context()).Import(r.Context(), stream)
 		if err != nil {
 			err = fmt.Errorf("importing logs: %w", err)
